@@ -1748,7 +1748,7 @@ func main() {
 	}
 
 	// valid, properly nested hand-serialised forests
-	nValid := hv.Scale(2, 12)
+	nValid := hv.Scale(2, 6)
 	for i := 0; i < nValid; i++ {
 		f := synthForest(r, fmt.Sprintf("v%d.", i), false)
 		all := hs(f)
@@ -1761,13 +1761,13 @@ func main() {
 					runParent("parent", a, b)
 				}
 			}
-			policySweep(r, all, hv.Scale(120, 1500))
+			policySweep(r, all, hv.Scale(120, 800))
 			authkeysSweep(r, all, hv.Scale(40, 400))
-			issueSweep(r, f, hv.Scale(220, 3000))
+			issueSweep(r, f, hv.Scale(220, 1500))
 		}
 	}
 	// forests with wrong types, swapped parents, foreign signers, odd windows
-	nWild := hv.Scale(4, 40)
+	nWild := hv.Scale(4, 16)
 	for i := 0; i < nWild; i++ {
 		f := synthForest(r, fmt.Sprintf("w%d.", i), true)
 		all := hs(f)
@@ -1778,7 +1778,7 @@ func main() {
 					runParent("parent-wild", a, b)
 				}
 			}
-			policySweep(r, all, hv.Scale(80, 600))
+			policySweep(r, all, hv.Scale(80, 300))
 			authkeysSweep(r, all, hv.Scale(30, 200))
 		}
 	}
